@@ -605,11 +605,12 @@ def check_wellformed(ctx, cname, tag, kwargs, g, route):
                      for j, r in ((j3, float(g.r1)), (j4, float(g.r2))) if r > 0]
             if cands:
                 tolf += min(cands)
-        # a flank of positive length is the straight piece between junction 3 and the next vertex towards the centre
-        # (junction 4): that vertex must lie on the same line - neither a step up nor a step down at the end of the r2 arc
+        # a flank of positive length is the straight piece between junction 3 and the next vertex towards the centre when that
+        # is junction 4 (start of the sampled r2 arc): it must lie on the same line - neither a step up nor a step down
         d3 = np.hypot(right[:, 0] - j3[0], right[:, 1] - j3[1])
         i3 = int(np.argmin(d3))
-        if d3[i3] <= eps and i3 >= 1 and abs(s[i3]) <= tolf and not abs(s[i3 - 1]) <= tolf:
+        if d3[i3] <= eps and i3 >= 1 and abs(s[i3]) <= tolf and not abs(s[i3 - 1]) <= tolf \
+                and math.hypot(right[i3 - 1, 0] - j4[0], right[i3 - 1, 1] - j4[1]) <= eps:
             viol("flank-step", f"the flank does not run along the flank line: the vertex after junction 3 towards the centre, "
                  f"({right[i3 - 1, 0]}, {right[i3 - 1, 1]}), is {float(s[i3 - 1])} off the line through (usable_width/2, 0) at the "
                  f"flank angle (allowance {tolf})")
